@@ -208,6 +208,17 @@ func (eval RingPackingEvaluator) Split(ctN, ctEvenNHalf, ctOddNHalf *Ciphertext)
 		return fmt.Errorf("ctEvenNHalf.LogN() must be equal to ctN.LogN()-1")
 	}
 
+	if ctOddNHalf != nil && ctOddNHalf.LogN() != ctN.LogN()-1 {
+		return fmt.Errorf("ctOddNHalf.LogN() must be equal to ctN.LogN()-1")
+	}
+
+	// The halves are at the level of the ciphertext that is split, whatever
+	// the level (or degree) their receivers had before.
+	ctEvenNHalf.Resize(1, ctN.Level())
+	if ctOddNHalf != nil {
+		ctOddNHalf.Resize(1, ctN.Level())
+	}
+
 	LogN := ctN.LogN()
 
 	evalN := eval.Evaluators[LogN]
@@ -230,10 +241,6 @@ func (eval RingPackingEvaluator) Split(ctN, ctEvenNHalf, ctOddNHalf *Ciphertext)
 
 	// Maps to smaller ring degree X -> Y = X^{2}
 	if ctOddNHalf != nil {
-
-		if ctOddNHalf.LogN() != ctN.LogN()-1 {
-			return fmt.Errorf("ctOddNHalf.LogN() must be equal to ctN.LogN()-1")
-		}
 
 		*ctOddNHalf.MetaData = *ctN.MetaData
 		r.MulCoeffsMontgomery(ctTmp.Value[0], eval.XInvPow2NTT[LogN][0], ctTmp.Value[0])
@@ -416,6 +423,14 @@ func (eval RingPackingEvaluator) Merge(ctEvenNHalf, ctOddNHalf, ctN *Ciphertext)
 			return fmt.Errorf("ctEvenNHalf.LogN() and ctOddNHalf.LogN() must be equal")
 		}
 	}
+
+	// The merged ciphertext is at the level of the halves, whatever the
+	// level (or degree) its receiver had before.
+	level := ctEvenNHalf.Level()
+	if ctOddNHalf != nil {
+		level = utils.Min(level, ctOddNHalf.Level())
+	}
+	ctN.Resize(1, level)
 
 	LogN := ctN.LogN()
 
